@@ -351,7 +351,40 @@ func (p *Prog) mapNonNil(fn *ssa.Function, cz *canonizer, m ssa.Value, at ssa.In
 //   (c) x == "non-empty constant" when C is x != "" (and similar string implications),
 //   (d) N != nil for another phi N of the same block whose nil edges are a superset... (same gating).
 func (p *Prog) gatedNonNil(fn *ssa.Function, cz *canonizer, m *ssa.Phi, okEdges []int, at ssa.Instruction) (bool, string) {
-	guards := dominatingGuards(at.Block())
+	if ok, why := p.guardsImplyNonNil(fn, cz, m, okEdges, dominatingGuards(at.Block())); ok {
+		return true, why
+	}
+	// disjunctive entry: every edge into the block (recursively, a few levels) carries a condition that implies non-nil
+	var rec func(b *ssa.BasicBlock, depth int, seen map[*ssa.BasicBlock]bool) bool
+	rec = func(b *ssa.BasicBlock, depth int, seen map[*ssa.BasicBlock]bool) bool {
+		if ok, _ := p.guardsImplyNonNil(fn, cz, m, okEdges, dominatingGuards(b)); ok {
+			return true
+		}
+		if depth > 4 || seen[b] || len(b.Preds) == 0 || b == m.Block() {
+			return false
+		}
+		seen[b] = true
+		for i, pr := range b.Preds {
+			var gs []guard
+			if ifi, ok := pr.Instrs[len(pr.Instrs)-1].(*ssa.If); ok {
+				gs = append(gs, guard{ifi.Cond, succIndex(pr, b, i) == 0})
+			}
+			if ok, _ := p.guardsImplyNonNil(fn, cz, m, okEdges, gs); ok {
+				continue
+			}
+			if !rec(pr, depth+1, seen) {
+				return false
+			}
+		}
+		return true
+	}
+	if rec(at.Block(), 0, map[*ssa.BasicBlock]bool{}) {
+		return true, "every edge into the block carries a condition that excludes the nil case (len > 0, or the condition under which " + m.Comment + " was made)"
+	}
+	return false, ""
+}
+
+func (p *Prog) guardsImplyNonNil(fn *ssa.Function, cz *canonizer, m *ssa.Phi, okEdges []int, guards []guard) (bool, string) {
 	// (a)
 	for _, g := range guards {
 		ng := normGuard(g)
@@ -370,9 +403,11 @@ func (p *Prog) gatedNonNil(fn *ssa.Function, cz *canonizer, m *ssa.Phi, okEdges 
 				}
 			}
 		}
-	}
-	if guardedNonNil(cz, m, at.Block()) {
-		return true, "dominated by " + m.Comment + " != nil"
+		if (bo.Op == token.EQL || bo.Op == token.NEQ) && (isNilConst(bo.Y) && bo.X == ssa.Value(m) || isNilConst(bo.X) && bo.Y == ssa.Value(m)) {
+			if (bo.Op == token.NEQ) == ng.Pol {
+				return true, "dominated by " + m.Comment + " != nil"
+			}
+		}
 	}
 	// gating condition: the phi block's predecessors on ok edges are dominated by one edge of a branch
 	blk := m.Block()
@@ -429,8 +464,16 @@ func (p *Prog) gatedNonNil(fn *ssa.Function, cz *canonizer, m *ssa.Phi, okEdges 
 						same = false
 					}
 				}
-				if same && guardedNonNil(cz, n, at.Block()) {
-					return true, "dominated by " + n.Comment + " != nil, and " + n.Comment + " is nil exactly on the paths where " + m.Comment + " is"
+				if !same {
+					continue
+				}
+				for _, g := range guards {
+					ng := normGuard(g)
+					if bo, ok := ng.Cond.(*ssa.BinOp); ok && (bo.Op == token.EQL || bo.Op == token.NEQ) {
+						if (isNilConst(bo.Y) && bo.X == ssa.Value(n) || isNilConst(bo.X) && bo.Y == ssa.Value(n)) && (bo.Op == token.NEQ) == ng.Pol {
+							return true, "dominated by " + n.Comment + " != nil, and " + n.Comment + " is nil exactly on the paths where " + m.Comment + " is"
+						}
+					}
 				}
 			}
 		}
